@@ -160,7 +160,7 @@ class ReaderStream:
             else:
                 # the malformed stream
                 stream += rng.choice([b"\xf0\x00", b"\x00\x02\x10\x00", b"\x00", b"\x40\x01\x00", b"\x30\x01\x00", b"\x20\x81\x81\x81\x81\x81\x01", DecodeStream().rand_packet(rng, proto)])
-        if stream and rng.random() < 0.15:
+        if len(stream) >= 2 and rng.random() < 0.15:
             # the peer falls silent in the middle of a packet and the connection is ended by something other than a read
             # error - the application replaces it, disconnects, or the keep-alive gives up; a new connection is then
             # established: its CONNACK (and what follows) must be decoded as on any fresh connection
